@@ -35,6 +35,10 @@ if _plan_path:
     _inst = _seams.Installed(_disk)
     _inst.__enter__()  # open() seams of iodata.utils / iodata.api plus os.remove/rename/exists for simulated paths
 
+    if _knobs.get("mem") is not None:
+        # allocator seam: np.empty called from iodata returns a chosen fill pattern in this interpreter
+        _seams.MemPoison(_knobs["mem"], prefix=os.path.join(os.path.realpath(os.path.dirname(os.path.dirname(iodata.api.__file__))), "iodata") + os.sep).__enter__()
+
     def _dump_result():
         out = {
             "cwd": _disk.cwd,
